@@ -157,6 +157,35 @@ theorem spline_predict_eq_jac_mul (obs force : List (PReal × PReal)) (md : PRea
   rw [List.zipWith_map_left]
   simp [List.zip, List.map_zipWith]
 
+/-! Helper lemmas: sums of defined values stay defined -/
+open Finset in
+theorem psum_map_fin (l : List ℝ) : psum (l.map fin) = fin l.sum := by
+  induction l with
+  | nil => rfl
+  | cons x xs ih => simp only [List.map_cons, psum, List.foldr_cons, List.sum_cons] at ih ⊢; rw [ih]; rfl
+
+theorem zipWith_mul_fin (a b : List ℝ) : List.zipWith (· * ·) (a.map fin) (b.map fin) = (List.zipWith (· * ·) a b).map fin := by
+  induction a generalizing b with
+  | nil => rfl
+  | cons x xs ih => cases b with
+    | nil => rfl
+    | cons y ys => simp only [List.map_cons, List.zipWith_cons_cons, ih]; rfl
+
+open Finset in
+theorem sum_zipWith_eq_finsum (row v : List ℝ) (n : Nat) (hr : row.length = n) (hv : v.length = n) :
+    (List.zipWith (· * ·) row v).sum = ∑ k : Fin n, row.getD k 0 * v.getD k 0 := by
+  subst hr
+  induction row generalizing v with
+  | nil => simp
+  | cons x xs ih =>
+    cases v with
+    | nil => simp at hv
+    | cons y ys =>
+      simp only [List.length_cons, Nat.add_right_cancel_iff] at hv
+      simp only [List.zipWith_cons_cons, List.sum_cons, List.length_cons, Fin.sum_univ_succ, Fin.val_zero, List.getD_cons_zero, Fin.val_succ,
+        List.getD_cons_succ, ih ys hv]
+
+
 /-- Trend: `predict` is the documented polynomial = Jacobian row · coefficients. -/
 theorem trend_predict_eq_jac_mul (coef : List Rat) (deg : Nat) (e n : Rat) :
     trendPredict coef deg e n =
